@@ -937,7 +937,8 @@ func classify(f map[string]int, c *Case) (string, []string) {
 	for _, k := range []string{"end-of-schedule", "cycle-began-inside-close-window", "zero-forecast-ambiguity", "delegation-pool-nonzero", "delegators-rewarded",
 		"blocks-with-absent-signers", "rewards-with-absent-signers", "burnout-paid", "burnout-capped-by-pool", "restart-inside-cycle", "restart-at-cycle-boundary", "restart-after-schedule",
 		"withdraw-block-judged", "withdraw-block-not-judged", "ok:WITHDRAW_REWARD:amt-pos", "ok:WITHDRAW_REWARD:amt-neg", "ok:WITHDRAW_REWARD:amt-beyond-int64", "ok:WITHDRAW_REWARD:validator-record-absent", "ok:WITHDRAW_REWARD:stranger-took-rewards-of-removed-validator",
-		"negative-withdrawn-record", "twin-apphash-differs-outside-reward-records", "hazard:forecast-shorter-than-cycle", "hazard:zero-forecast", "year-share-exceeded-in-total(not judged)", "ok:STAKE", "ok:UNSTAKE", "ok:ADD_NETWORK_DELEGATION"} {
+		"negative-withdrawn-record", "twin-apphash-differs-outside-reward-records", "hazard:forecast-shorter-than-cycle", "hazard:zero-forecast", "year-share-exceeded-in-total(not judged)", "ok:STAKE", "ok:UNSTAKE", "ok:ADD_NETWORK_DELEGATION",
+		"genesis-carries-reward-state", "genesis-carries-reward-years", "imported-chunk-matured", "imported-first-chunk-exceeds-last-two", "imported-withdrawn-amounts"} {
 		if f[k] > 0 {
 			classes = append(classes, k)
 		}
@@ -947,6 +948,22 @@ func classify(f map[string]int, c *Case) (string, []string) {
 	}
 	if f["years-used"] >= 2 {
 		classes = append(classes, "crosses-year-boundary")
+	}
+	if f["genesis-carries-reward-state"] > 0 {
+		n := f["imported-chunks"]
+		switch {
+		case n == 0:
+			classes = append(classes, "imported-chunks:0")
+		case n < 10:
+			classes = append(classes, "imported-chunks:1-9")
+		case n < 40:
+			classes = append(classes, "imported-chunks:10-39")
+		default:
+			classes = append(classes, "imported-chunks:40+")
+		}
+		if f["ok:WITHDRAW_REWARD:amt-pos"] > 0 {
+			classes = append(classes, "rewards-withdrawn-on-carried-state")
+		}
 	}
 	classes = append(classes, "profile-"+c.Profile)
 	nt := ""
@@ -958,7 +975,7 @@ func classify(f map[string]int, c *Case) (string, []string) {
 	return nt, classes
 }
 
-const rule = "generated genesis (1-7 validators with tied or distinct stakes, reward options, rewards pool funded / nearly empty / zero, delegation pool none / tiny / small / dominant) x block history with generated block times (gaps >= 1 s), proposers, absent signers, stake / unstake (power changes, validator removal), delegations, donations and reward withdrawals (whole, partial, boundary and hostile amounts, strangers as signers), executed on one replica plus a twin restarted from a crash image at a generated height; non-trivial = the history crosses at least one calculation-cycle boundary and rewards were paid in a block with an absent signer or to a non-empty delegation pool; distinct by trace hash"
+const rule = "generated genesis (1-7 validators with tied or distinct stakes, reward options, rewards pool funded / nearly empty / zero, delegation pool none / tiny / small / dominant) x block history with generated block times (gaps >= 1 s), proposers, absent signers, stake / unstake (power changes, validator removal), delegations, donations and reward withdrawals (whole, partial, boundary and hostile amounts, strangers as signers); about one history in four starts from a genesis that carries the reward state exported (the node's own export) at the end of a generated first history (itself judged), in which a validator may stop signing early; executed on one replica plus a twin restarted from a crash image at a generated height; non-trivial = the history crosses at least one calculation-cycle boundary and rewards were paid in a block with an absent signer or to a non-empty delegation pool; distinct by trace hash"
 
 // fade makes one validator stop signing from a height on: it earned at the beginning of the
 // history and is idle at its end (offline, as far as the two-thirds rule lets it be absent).
@@ -975,7 +992,7 @@ type caseOpts struct {
 	classes     []string // extra class labels
 }
 
-// runCase generates and judges one history; false = it ended in a failure.
+// runCase generates and judges one history.
 func runCase(rt *rapid.T, h *run.H, p sim.Params, profile string, tp *tempo, o caseOpts) {
 	c := &Case{Params: p, Profile: profile, RestartAt: o.restartAt}
 	u := hist.NewU(rt)
@@ -1144,6 +1161,10 @@ func summary(c *Case, f map[string]int) map[string]interface{} {
 	s["reward_options"] = map[string]interface{}{"cycle": c.Params.RewardCycle, "est_secs": c.Params.RewardEstSecs, "close_window": c.Params.RewardCloseWin,
 		"year_shares": c.Params.RewardYearShares, "burnout": c.Params.RewardBurnout, "interval": c.Params.RewardInterval, "pool_fund": c.Params.RewardPoolFund}
 	s["restart_at"] = c.RestartAt
+	if pr := c.Params.PreRewards; pr != nil {
+		s["genesis_reward_state"] = map[string]interface{}{"intervals": pr.Intervals, "chunks": len(pr.Chunks), "validators": len(pr.AddrList),
+			"total_distributed": pr.TotalDistributed, "chunks_matured_in_history": f["imported-chunk-matured"]}
+	}
 	s["blocks"] = f["blocks"]
 	s["cycles"] = f["cycles"]
 	s["years_used"] = f["years-used"]
